@@ -144,6 +144,7 @@ func init() {
 	vfIntrinsics["vfObserve"] = func(c *callCtx, a []Value) (Value, callStatus) {
 		tag := concStr(a[0])
 		var ts []*Term
+		uns := map[int]bool{} // positions holding values of unsigned integer types (printed as such)
 		if len(a) > 1 {
 			sl := a[1].(Slice)
 			for i := 0; i < sl.len; i++ {
@@ -153,6 +154,9 @@ func init() {
 					if x.W == 0 {
 						ts = append(ts, BoolToBV(x, 1))
 					} else {
+						if iv.t != nil && isInteger(iv.t) && !isSigned(iv.t) {
+							uns[len(ts)] = true
+						}
 						ts = append(ts, x)
 					}
 				case Str:
@@ -174,6 +178,7 @@ func init() {
 			k = fmt.Sprintf("%s#%d", tag, n)
 		}
 		c.e.obsTerms[k] = ts
+		c.e.obsUnsigned[k] = uns
 		return nil, callDone
 	}
 	vfIntrinsics["vfYield"] = func(c *callCtx, a []Value) (Value, callStatus) {
